@@ -13,6 +13,11 @@ type Fault struct {
 	// Torn is the number of bytes of a write that reach the file before the
 	// fault takes effect (kill, enospc). Ignored for other operations.
 	Torn int `json:"torn,omitempty"`
+	// Arg, for kind "call": what to hand to World.OnCall just before the
+	// operation is carried out - something else on the machine acts at that
+	// moment (another program rewrites the input file); the operation itself
+	// then proceeds unharmed.
+	Arg string `json:"arg,omitempty"`
 }
 
 // PowerLoss describes what a power cut at process death does to writes that
@@ -176,6 +181,14 @@ func (w *World) begin(kind, path string, off int64, n int) *Fault {
 	p.Trace = append(p.Trace, OpRec{Kind: kind, Class: cls, Name: name, Path: path, Off: off, Len: n})
 	for i := range p.Faults {
 		if p.Faults[i].AtOp == idx {
+			if p.Faults[i].Kind == "call" {
+				w.Stats.FaultsFired["outside-event@"+kind]++
+				p.Fired = append(p.Fired, "outside-event@"+kind)
+				if w.OnCall != nil {
+					w.OnCall(p.Faults[i].Arg)
+				}
+				continue
+			}
 			return &p.Faults[i]
 		}
 	}
